@@ -849,6 +849,11 @@ class Engine:
         else:
             x, st = None, "none"
         nm = self.name()
+        if st == "definition" and x.library is not None and self.r.random() < 0.4:
+            # the name the definition is to get is already the name of a sibling definition: the rename inside the call is refused
+            sib = [d.name for d in x.library.definitions if d is not x and d.name]
+            if sib:
+                nm = self.pick(sib)
         return Op("Netlist.set_top_instance", lambda: n.set_top_instance(x, nm), "set_top_instance(%s,%r)" % (st, nm), st, n, (x, nm))
 
     # ------------------------------------------------------------------ names and data
